@@ -17,6 +17,7 @@ RULE_TEXT = "obligations = one per panic site (Assert / denylisted call), one pe
 ASSUMPTIONS = [
     "panics, overflow or non-termination INSIDE dependencies and std are not analysed (only calls of their documented-panicking APIs are tracked); an unlisted panicking API is not seen",
     "allocation failure, stack depth and capacity requests passed as caller-supplied usize (reserve, reserve_exact, with_capacity) are outside the property's string-argument quantifier: listed, not claimed",
+    "J13: a string slice &s[..i] / &s[i+1..] is justified only if i is the Some-payload of s.find(c) / s.rfind(c) on the same s for a one-byte (ASCII) char constant c",
     "J12: x - c is justified only by a dominating branch condition on the same x that implies x >= c (x != 0, x > k, x >= k)",
     "J9: a sum of lengths of strings/collections that are simultaneously alive, plus their count, cannot exceed usize::MAX (each counted element occupies at least one byte of address space)",
 ]
@@ -142,10 +143,16 @@ def bounded_term(t, depth=0):
         return False
     if t[0] == "const":
         return isinstance(t[1], int) and 0 <= t[1] <= 1
+    if t[0] in ("some", "ok") and t[1][0] == "call" and t[1][1] in (models.STR + "find", models.STR + "rfind"):
+        return True  # a byte position inside a live string
+    if t[0] == "phi":
+        return all(bounded_term(x, depth + 1) for x in t[1])
     if t[0] == "call":
         nm = t[1].split("::")[-1]
         if nm in ("len", "count", "size_hint", "capacity"):
             return True
+        if nm == "len_utf8" and "<impl char>" in t[1]:
+            return True  # 1..=4
         if nm == "sum" and "Iterator" in t[1]:
             return True
         return False
@@ -249,6 +256,25 @@ def justify(facts, s):
         if a[0] == "call" and a[1] == "std::cmp::PartialOrd::partial_cmp":
             return None, "unresolved partial_cmp"
         return None, "unwrap of %s" % nshow(a)[:100]
+    if item == "index" and p == models.STR_INDEX:
+        # J13: &s[..i] / &s[i + 1..] where i is the position at which an ASCII char was found in the same s: both ends are
+        # char boundaries inside s (the char is one byte long), so the slice cannot panic
+        ct = norm(b.call_term(bb))
+        reg = models._slice_region(ct)
+        if reg is not None:
+            return "J13", "slice of the string at the position of %r found in it (%s)" % (reg[1], reg[0])
+        # the position may come from one of several searches (joined arms), each on the same string
+        s_, rg = ct[2]
+        if rg[0] == "agg" and rg[1][0] == "adt" and rg[1][1] in ("std::ops::RangeTo", "std::ops::RangeFrom") and len(rg[2]) == 1:
+            pos = rg[2][0]
+            if rg[1][1] == "std::ops::RangeFrom":
+                po = models._plus_one(pos)
+                pos = po[0] if po is not None and po[1] is None else None
+            arms = list(pos[1]) if pos is not None and pos[0] == "phi" else ([pos] if pos is not None else [])
+            fcs = [models._find_call(a) for a in arms]
+            if arms and all(fc is not None and fc[2] == s_ and ord(fc[1]) < 128 for fc in fcs):
+                return "J13", "slice of the string at the position of one of %s found in it" % sorted(set(fc[1] for fc in fcs))
+        return None, "string slice whose bounds are not the position of a char found in the same string: %s" % nshow(args[1])[:100]
     if item in ("index", "index_mut", "remove", "swap_remove") and "Vec" in p:
         idx = args[1]
         fs = from_search(facts, idx)
